@@ -26,7 +26,8 @@ def enumerate_points(prop, tag, module, constants, invariants, workers=16, timeo
 
     gen = (f"---- MODULE MC_{module} ----\nEXTENDS {module}\n{extra_defs}\n"
            + "\n".join(f"G_{k} == {v}" for k, v in constants.items()) + "\n====\n")
-    cfg = "SPECIFICATION Spec\nCONSTANTS\n" + "\n".join(f"  {k} <- G_{k}" for k in constants) + "\n"
+    cfg = "SPECIFICATION Spec\n" + ("CONSTANTS\n" if constants else "") \
+        + "\n".join(f"  {k} <- G_{k}" for k in constants) + "\n"
     cfg += "".join(f"INVARIANT {i}\n" for i in invariants)
     res = run_tlc(work, f"MC_{module}", cfg, gen, on_line=on_line, workers=workers, timeout=timeout)
     if not res.ok:
